@@ -264,3 +264,125 @@ def expected_outcomes(v):
     if v.maybe:
         return ('true', 'mismatch')
     return ('true',)
+
+
+# ---------------------------------------------------------------------------------------
+# exactness of written Manifests (C03) - evaluated on the model after update+save
+
+def in_use_manifests(fs, top_name):
+    """Every Manifest reachable from the top through MANIFEST entries, with link problems."""
+    acc = [(top_name, posixpath.dirname(top_name), resolve(fs, top_name).entries)]
+    problems = []
+    seen = {top_name}
+    i = 0
+    while i < len(acc):
+        mpath, d, entries = acc[i]
+        i += 1
+        for e in entries:
+            if e.tag != 'MANIFEST':
+                continue
+            mp = posixpath.join(d, e.path)
+            node = resolve(fs, mp)
+            if node is None or node.kind != 'file':
+                problems.append(f'MANIFEST entry in {mpath} names missing file {mp}')
+                continue
+            if not file_matches(node, e):
+                problems.append(f'MANIFEST entry for {mp} in {mpath} does not carry its '
+                                f'true size/digests')
+            if mp in seen:
+                continue
+            seen.add(mp)
+            if node.entries is not None and not node.invalid:
+                acc.append((mp, posixpath.dirname(mp), node.entries))
+    return acc, problems
+
+
+def oracle_exact(fs, top_name, upath, hashes):
+    """Problems (empty list = the Manifests describe the tree under `upath` exactly)."""
+    acc, problems = in_use_manifests(fs, top_name)
+    want = sorted(hashes)
+    file_entries = {}
+    ignores = []
+    for mpath, d, entries in acc:
+        for e in entries:
+            if e.tag in ('DIST', 'TIMESTAMP'):
+                continue
+            full = posixpath.join(d, e.path)
+            if e.tag == 'IGNORE':
+                ignores.append(full)
+            else:
+                file_entries.setdefault(full, []).append((mpath, e))
+
+    def ignored(rel):
+        return any(cw_prefix(rel, ig) for ig in ignores)
+
+    def visit(dir_rel, node, depth):
+        if depth > 12:
+            return
+        for name, child in node.children.items():
+            if name.startswith('.'):
+                continue
+            rel = posixpath.join(dir_rel, name)
+            if ignored(rel):
+                continue
+            res = child
+            if child.kind == 'symlink':
+                res = resolve(fs, rel)
+            if res is None:
+                continue
+            if res.kind == 'dir':
+                visit(rel, res, depth + 1)
+            elif res.kind == 'file':
+                if rel == top_name:
+                    continue
+                lst = file_entries.get(rel, [])
+                if len(lst) != 1:
+                    problems.append(f'{rel}: covered by {len(lst)} file entries')
+                    continue
+                mpath, e = lst[0]
+                if not file_matches(res, e):
+                    problems.append(f'{rel}: entry in {mpath} does not carry the true '
+                                    f'size/digests')
+                if e.tag != 'MANIFEST' and sorted(e.checksums) != want:
+                    problems.append(f'{rel}: hash set {sorted(e.checksums)} != {want}')
+    start = resolve(fs, upath)
+    if start is not None and start.kind == 'dir':
+        visit(upath, start, 0)
+    for full, lst in file_entries.items():
+        if not cw_prefix(full, upath):
+            continue
+        node = resolve(fs, full)
+        if node is None or node.kind != 'file':
+            problems.append(f'{full}: entry for a file that does not exist')
+    return problems
+
+
+def run_update(fs, top='Manifest', path='', hashes=('MD5',), sort=False, force=False,
+               last_mtime=None, loader_kw=None, save_kw=None, rounds=1):
+    """Real ManifestRecursiveLoader: update_entries_for_directory + save_manifests."""
+    from gemato.exceptions import GematoException
+    from gemato.recursiveloader import ManifestRecursiveLoader
+    from vf.modelfs import FuelExhausted
+    with fs.installed():
+        try:
+            for _ in range(rounds):
+                m = ManifestRecursiveLoader(posixpath.join(fs.root_path, top),
+                                            verify_openpgp=False, hashes=list(hashes),
+                                            sort=sort, **(loader_kw or {}))
+                kw = {}
+                if last_mtime is not None:
+                    kw['last_mtime'] = last_mtime
+                m.update_entries_for_directory(path, **kw)
+                m.save_manifests(force=force, **(save_kw or {}))
+            return 'saved'
+        except GematoException as e:
+            return 'error:' + type(e).__name__
+        except FuelExhausted:
+            return 'nonterminating'
+        except OSError as e:
+            return 'oserror:' + type(e).__name__
+        except (AssertionError, AttributeError, KeyError, IndexError, TypeError,
+                ValueError, NotImplementedError, UnboundLocalError) as e:
+            # an internal error escaping the library is C18's subject, not a completed
+            # update; callers decide what to make of it
+            return 'crash:' + type(e).__name__
